@@ -64,10 +64,15 @@ type Exchange struct {
 	HandlerRan bool
 	Done       bool // handler returned (or panicked)
 
-	BodyCloses  int  // client called Response.Body.Close this many times
-	ReqClosedBy string // who closed the client's request pipe reader first
+	Delivered          bool   // Do returned a response to the client
+	BodyCloses         int    // client called Response.Body.Close this many times
+	ReqClosedBy        string // who closed the client's request pipe reader first
 	ServerCtxCancelled bool
 }
+
+func (e *Exchange) IsDone() bool      { e.mu.Lock(); defer e.mu.Unlock(); return e.Done }
+func (e *Exchange) Closes() int       { e.mu.Lock(); defer e.mu.Unlock(); return e.BodyCloses }
+func (e *Exchange) GotResponse() bool { e.mu.Lock(); defer e.mu.Unlock(); return e.Delivered }
 
 // Transport implements connect.HTTPClient.
 type Transport struct {
@@ -89,6 +94,8 @@ type Transport struct {
 	// handler returns (sequential explorers).  Otherwise it is the separate
 	// event thread "T.closeReq".
 	SyncCloseReq bool
+	// OnReqClosed is told who closed the client's request body first.
+	OnReqClosed func(who string)
 
 	mu        sync.Mutex
 	Exchanges []*Exchange
@@ -216,6 +223,9 @@ func (c *call) closeClientReqBody(who string) {
 		c.ex.mu.Lock()
 		c.ex.ReqClosedBy = who
 		c.ex.mu.Unlock()
+		if c.t.OnReqClosed != nil {
+			c.t.OnReqClosed(who)
+		}
 	})
 	if c.req.Body != nil {
 		_ = c.req.Body.Close()
@@ -349,6 +359,9 @@ func (t *Transport) Do(req *http.Request) (*http.Response, error) {
 	c.mu.Lock()
 	c.response = resp
 	c.mu.Unlock()
+	ex.mu.Lock()
+	ex.Delivered = true
+	ex.mu.Unlock()
 	return resp, nil
 }
 
